@@ -688,6 +688,18 @@ theorem tie_measurement_offsets {β : Type} (cast32 : β → β) (vals : List (O
       getValues m n = .error e) :=
   measurement_offsets_are_source β cast32 vals m il hm
 
+/-- the check the group constructor applies to every item of `measurements` (hand-written `checkMeas`, with the source's
+`try / except IndexError`) is the regenerated loop body `Gen.measCheckPlan` applied to the remembered number of values, to
+whether `get_values` raises (it raises nothing but IndexError) and to the length of what it returns -/
+theorem tie_measurement_check {β : Type} (m : MeasEnc β) (n : Nat) :
+    (∀ e, getValues m n = .error e → e = .index) ∧
+    checkMeas m n =
+      (match getValues m n with
+       | .error _ => (measCheckPlan (m.numberOfValues.map (fun (k : Nat) => (k : Int))) true true (n : Int) 0).map (fun _ => ())
+       | .ok vals => (measCheckPlan (m.numberOfValues.map (fun (k : Nat) => (k : Int))) false true (n : Int) (vals.length : Int)).map
+           (fun _ => ())) :=
+  ⟨getValues_err_index m n, checkMeas_follows_plan m n⟩
+
 /-- the SOP class constructor accepts a list of group numbers iff its regenerated loop body (`Gen.sopGroupCheck`)
 succeeds at every position 0, 1, … -/
 theorem tie_sop_numbering (numbers : List Int) : sopAcceptsNumbers numbers = sopLoop 0 numbers :=
